@@ -157,6 +157,18 @@ def run_case(c):
         rec["oracle"].append("operand-validity-modified")
     if not np.array_equal(np.asarray(f.array, dtype=float), orig_vals):
         rec["oracle"].append("operand-values-modified")
+    # equivalent spellings of the same call (numpy scalars / strings, positional form) give the same field;
+    # orders other than 1 and 2 are refused
+    for args, kw in (((np.str_(dim),), dict(order=np.int64(order), restrict2valid=np.bool_(c["restrict"]))),
+                     ((dim, order, c["restrict"]), {}),
+                     ((dim,), dict(order=np.uint8(order), restrict2valid=int(c["restrict"])))):
+        sts, rs = attempt(lambda: f.diff(*args, **kw))
+        if sts != "ok" or not np.array_equal(rs.array, out) or not np.array_equal(rs.valid, r.valid):
+            rec["oracle"].append("argument-spelling")
+    for bad in (0, 3, -1):
+        stb, _ = attempt(lambda: f.diff(dim, order=bad))
+        if stb == "ok":
+            rec["oracle"].append("unsupported-order-accepted")
     # a second derivative of the same operand must see the same operand (no state left behind)
     st2, r2 = attempt(lambda: f.diff(dim, order=3 - order, restrict2valid=c["restrict"]))
     st3, r3 = attempt(lambda: f.diff(dim, order=order, restrict2valid=c["restrict"]))
